@@ -23,6 +23,7 @@ type LoopSpec struct {
 	Invariants  []*Clause
 	BodyEnsures []*Clause // checked at every back edge
 	ExitEnsures []*Clause // checked at every loop exit edge
+	EntryEnsures []*Clause // checked when the loop is first reached (state before the first iteration)
 	Decreases   *Clause
 	Modifies    []*Clause // heap frame of the loop (lvalue expressions)
 	Unroll      int
@@ -46,6 +47,7 @@ type Contract struct {
 	NoPanic  bool // generate implicit safety obligations
 	RealFloat bool // float64 treated as exact reals in this function's obligations
 	Logical  [][2]string // logical (universally quantified) variables: name, type text
+	TrustedFrame bool // the modifies clause is used by callers but not checked on the body (listed as assumption)
 	AssumeFresh []string // callee expression texts whose calls return freshly allocated values and modify nothing
 	AssumePure []string // callee expression texts whose calls (through function values) are assumed pure
 	Requires []*Clause
@@ -98,7 +100,7 @@ type Contracts struct {
 	Scope   map[string]string // package path -> file whose imports are visible to spec/ghost/lemma declarations
 }
 
-var clauseHead = regexp.MustCompile(`^(scope|func|iface|realfloat|assume_pure|assume_fresh|logical|pure_heap|pure|inline|trusted|nopanic|requires|ensures|modifies|loop|capture|assert@|ghost|spec|global|lemma)\b`)
+var clauseHead = regexp.MustCompile(`^(scope|func|iface|realfloat|assume_pure|assume_fresh|trusted_frame|logical|pure_heap|pure|inline|trusted|nopanic|requires|ensures|modifies|loop|capture|assert@|ghost|spec|global|lemma)\b`)
 var labelRe = regexp.MustCompile(`^\[([^\]]+)\]\s*`)
 
 func parseContracts(repo string) (*Contracts, error) {
@@ -254,6 +256,8 @@ func (cs *Contracts) parseFile(file, pkgPath string) error {
 					return fmt.Errorf("%s:%d: logical <name> <type>", file, it.line)
 				}
 				cur.Logical = append(cur.Logical, [2]string{f[0], f[1]})
+			case "trusted_frame":
+				cur.TrustedFrame = true
 			case "assume_fresh":
 				cur.AssumeFresh = append(cur.AssumeFresh, strings.ReplaceAll(rest, " ", ""))
 			case "assume_pure":
@@ -316,6 +320,8 @@ func (cs *Contracts) parseFile(file, pkgPath string) error {
 					ls.BodyEnsures = append(ls.BodyEnsures, mkClause("body_ensures"))
 				case "exit_ensures":
 					ls.ExitEnsures = append(ls.ExitEnsures, mkClause("exit_ensures"))
+				case "entry_ensures":
+					ls.EntryEnsures = append(ls.EntryEnsures, mkClause("entry_ensures"))
 				case "decreases":
 					ls.Decreases = mkClause("decreases")
 				case "modifies":
